@@ -42,6 +42,8 @@ package adapter
 // payload is refused with the ledger untouched.
 //@ func (a *Adapter) commonBeforeTransferHook(ctx, denom, passthroughPayload) (err)
 //@   requires[inv]  a != nil && a.logger != nil && a.bankKeeper != nil
+//   the stored limit is an unsigned 32-bit value (value codec of the params item)
+//@   requires[inv]  limitOf(a) >= 0
 //@   modifies bank
 //@   ensures[C18] len(passthroughPayload) > limitOf(a) ==> err != nil && bank == old(bank)
 //@   ensures[C18] len(passthroughPayload) <= limitOf(a) && bal(old(bank), core.ModuleAddress, denom) == 0 ==> err == nil
